@@ -95,9 +95,18 @@ def first_error(log):
 
 
 # ---------------------------------------------------------------- Coq evaluation
+_COQC_RETRY_LOCK = __import__("threading").Lock()
+
+
 def _coqc(path, timeout=600):
-    r = subprocess.run(["timeout", str(timeout), "coqc", "-Q", COQ, "XV", "-w", "-all", path],
-                       capture_output=True, text=True, cwd=os.path.dirname(path))
+    cmd = ["coqc", "-Q", COQ, "XV", "-w", "-all", path]
+    r = subprocess.run(["timeout", str(timeout)] + cmd, capture_output=True, text=True, cwd=os.path.dirname(path))
+    if r.returncode in (124, 137, -9, -15) or (r.returncode != 0 and not r.stdout.strip() and not r.stderr.strip()):
+        # killed by the time limit or by memory pressure (a loaded machine), not rejected by Coq: once more,
+        # one at a time, with a longer limit.  A case file that Coq REJECTS has an error text and is not retried.
+        with _COQC_RETRY_LOCK:
+            r = subprocess.run(["timeout", str(timeout * 3)] + cmd, capture_output=True, text=True,
+                               cwd=os.path.dirname(path))
     return r.returncode, r.stdout, r.stderr
 
 
